@@ -206,7 +206,7 @@ pub fn check(c: &Case) -> Outcome {
 }
 
 pub fn strategy() -> BoxedStrategy<Case> {
-    (prob_spec(4, 0.5, 8.0), span_mid(), any_method(), tols(4, 3.0, 9.0), any::<bool>(), proptest::option::weighted(0.2, log10(-1.5, 0.0)))
+    (prob_spec(4, 0.5, 8.0), prop_oneof![14 => span_mid().boxed(), 1 => span_tiny().boxed()], any_method(), tols(4, 3.0, 9.0), any::<bool>(), proptest::option::weighted(0.2, log10(-1.5, 0.0)))
         .prop_flat_map(|(prob, span, method, tol, aj, ms)| {
             let n: usize = prob.blocks.iter().map(|b| b.dim()).sum();
             (
